@@ -805,6 +805,20 @@ impl VmGreenThread {
     }
 }
 
+/// `a ^ b` for a non-negative exponent of any size
+pub(crate) fn checked_int_pow(a: AbraInt, b: AbraInt) -> Option<AbraInt> {
+    match u32::try_from(b) {
+        Ok(exp) => a.checked_pow(exp),
+        // an exponent beyond u32: only 0, 1 and -1 have a power that fits
+        Err(_) if b > 0 => match a {
+            0 | 1 => Some(a),
+            -1 => Some(if b % 2 == 0 { 1 } else { -1 }),
+            _ => None,
+        },
+        Err(_) => a.checked_pow(b as u32),
+    }
+}
+
 // Instr is 8 bytes
 const _: [(); 8] = [(); size_of::<Instr>()];
 #[derive(Debug, Copy, Clone)]
@@ -1870,16 +1884,28 @@ impl VmGreenThread {
                     self.error = Some(self.make_error(VmErrorKind::DivisionByZero).into());
                     return false;
                 }
+                // the divisor is not zero: the only failure left is MIN / -1, which does not fit
                 let Some(c) = a.checked_div(b) else {
-                    self.error = Some(self.make_error(VmErrorKind::DivisionByZero).into());
+                    self.error = Some(
+                        self.make_error(VmErrorKind::IntegerOverflowUnderflow)
+                            .into(),
+                    );
                     return false;
                 };
                 self.store_offset_or_top(dest, c);
             }
             Instr::DivideIntImm(dest, reg1, imm) => {
                 let a = self.load_offset_or_top(reg1).get_int(self);
-                let Some(c) = a.checked_div(self.shared.int_constants[imm as usize]) else {
+                let b = self.shared.int_constants[imm as usize];
+                if b == 0 {
                     self.error = Some(self.make_error(VmErrorKind::DivisionByZero).into());
+                    return false;
+                }
+                let Some(c) = a.checked_div(b) else {
+                    self.error = Some(
+                        self.make_error(VmErrorKind::IntegerOverflowUnderflow)
+                            .into(),
+                    );
                     return false;
                 };
                 self.store_offset_or_top(dest, c);
@@ -1887,7 +1913,7 @@ impl VmGreenThread {
             Instr::PowerInt(dest, reg1, reg2) => {
                 let b = self.load_offset_or_top(reg2).get_int(self);
                 let a = self.load_offset_or_top(reg1).get_int(self);
-                let Some(c) = a.checked_pow(b as u32) else {
+                let Some(c) = checked_int_pow(a, b) else {
                     self.error = Some(
                         self.make_error(VmErrorKind::IntegerOverflowUnderflow)
                             .into(),
@@ -1898,7 +1924,7 @@ impl VmGreenThread {
             }
             Instr::PowerIntImm(dest, reg1, imm) => {
                 let a = self.load_offset_or_top(reg1).get_int(self);
-                let Some(c) = a.checked_pow(self.shared.int_constants[imm as usize] as u32) else {
+                let Some(c) = checked_int_pow(a, self.shared.int_constants[imm as usize]) else {
                     self.error = Some(
                         self.make_error(VmErrorKind::IntegerOverflowUnderflow)
                             .into(),
@@ -1910,19 +1936,23 @@ impl VmGreenThread {
             Instr::Modulo(dest, reg1, reg2) => {
                 let b = self.load_offset_or_top(reg2).get_int(self);
                 let a = self.load_offset_or_top(reg1).get_int(self);
-                let Some(c) = a.checked_rem_euclid(b) else {
+                if b == 0 {
                     self.error = Some(self.make_error(VmErrorKind::DivisionByZero).into());
                     return false;
-                };
+                }
+                // MIN % -1 is 0 (checked_rem_euclid reports the overflow of the quotient)
+                let c = a.checked_rem_euclid(b).unwrap_or(0);
                 self.store_offset_or_top(dest, c);
             }
             Instr::ModuloImm(dest, reg1, imm) => {
                 let a = self.load_offset_or_top(reg1).get_int(self);
                 let b = self.shared.int_constants[imm as usize];
-                let Some(c) = a.checked_rem_euclid(b) else {
+                if b == 0 {
                     self.error = Some(self.make_error(VmErrorKind::DivisionByZero).into());
                     return false;
-                };
+                }
+                // MIN % -1 is 0 (checked_rem_euclid reports the overflow of the quotient)
+                let c = a.checked_rem_euclid(b).unwrap_or(0);
                 self.store_offset_or_top(dest, c);
             }
             Instr::BitXor(dest, reg1, reg2) => {
